@@ -273,6 +273,11 @@ def run(prog, chk):
         chk.ok("C15.f", sc, "string mode is left only on the closing quote or the terminator", "%s:%s" % (sc.file, sc.line), "no goto out of the literal loop under an escape", evals=len(gotos))
     string_mode_automaton(chk, "C15.h", sc)
     line_break_agreement(prog, chk, "C15.i")
+    chk.rule("C15.j", "MPT: every cursor / line field the tokenizer advances is set again in Private::parse before the first tokenizer call (a Parser is reused across documents)", floor=2)
+    from .server_common import parser_entry_resets
+    from .c16 import look_behind
+    look_behind(prog, chk, "C15.k", ("Json.cpp",))
+    parser_entry_resets(prog, chk, "C15.j", "Json::Private", "Json.cpp")
 
 
 def string_mode_automaton(chk, rid, sc):
